@@ -105,7 +105,18 @@ def run_c14(ctx):
                 ops.append("addnv t t " + hx(nb.serialize()))
                 impl.append("ok")
                 res.count("ledger_moved_between_spends")
-            remaining = sum(o.value for r, o in owned.items() if r not in w.spent_transaction_outputs)
+            if step == 5 or rng.random() < 0.1:
+                # the wallet file is opened a second time in the same process (a restored / reloaded wallet): a new object
+                # over the same keys, which has not spent anything yet (the record of used outputs is not saved)
+                f_ = io.StringIO()
+                w.dump(f_)
+                f_.seek(0)
+                w = Wallet.load(f_)
+                ever_used = set()
+                ops.append("w saveload")
+                impl.append("ok")
+                res.count("second_wallet_object_over_the_same_keys")
+            remaining = sum(o.value for r, o in owned.items() if r not in ever_used)
             mode = rng.choice(["small", "small", "half", "exact", "exact_fee", "prefix_exact", "prefix_exact", "over",
                                "way_over", "tiny", "later_covers", "later_covers"])
             if step % 3 == 0:
@@ -124,7 +135,7 @@ def run_c14(ctx):
                 bal = tree.refs_by_key(head)
                 order_ = []
                 for pk_ in w.keypairs:
-                    order_ += [r for r in bal.get(pk_, []) if r not in w.spent_transaction_outputs]
+                    order_ += [r for r in bal.get(pk_, []) if r not in ever_used]
                 if not order_:
                     continue
                 k_ = rng.randrange(1, len(order_) + 1)
@@ -138,7 +149,7 @@ def run_c14(ctx):
                 bal = tree.refs_by_key(head)
                 order_ = []
                 for pk_ in w.keypairs:
-                    order_ += [r for r in bal.get(pk_, []) if r not in w.spent_transaction_outputs]
+                    order_ += [r for r in bal.get(pk_, []) if r not in ever_used]
                 pick = None
                 acc_ = 0
                 for j_, r_ in enumerate(order_):
